@@ -1028,7 +1028,12 @@ class PrepareAst:
                             )
 
                         if rhs.aug_assign is None:
-                            return self.subcall(fset, [fself, rhs.value], {})
+                            result = self.subcall(fset, [fself, rhs.value], {})
+
+                            # the statements bound to the expression that yields
+                            # the object are evaluated before the setter
+                            result.add_bound_statement(value_expr)
+                            return result
                         else:
                             getter = self.subcall(fget, [fself], {})
                             assignment = self._do_aug_assign(
